@@ -1,6 +1,6 @@
 CONSTANTS
 Mutant = 1
-Points = {"resolver", "picker", "quota", "write", "recv", "recvmid", "handler"}
+Points = {"resolver", "picker", "quota", "write", "recv", "recvmid", "backoff", "handler"}
 Delays = {"none", "pick", "quota"}
 Deadlines = {1, 50000000, 50000001, 1000000000, 1000000001, 1000000999, 1500000500}
 Cancels = {1, 700000000}
